@@ -20,9 +20,12 @@ Definition run_position (l : list Z) : list Z :=
   let '(ng, _) := take_list r1 in
   enc_outcome (position_reader (graphic_of ng) [d] e off).
 
-(* case: p |d| d |ng| ng     NewErrorLexer on an Input over d moved to p *)
+(* case: p1 p2 |d| d |ng| ng     NewErrorLexer on an Input over d after Move(p1); Skip(); Move(p2) *)
 Definition run_errlexer (l : list Z) : list Z :=
-  let p := hdz l in
-  let '(d, r1) := take_list (tlz l) in
+  let p1 := hdz l in
+  let p2 := hdz (tlz l) in
+  let '(d, r1) := take_list (tlz (tlz l)) in
   let '(ng, _) := take_list r1 in
-  enc_outcome (new_error_lexer (graphic_of ng) (with_pos (new_string d) p)).
+  let z1 := with_pos (new_string d) p1 in
+  let z2 := with_start z1 (pos z1) in
+  enc_outcome (new_error_lexer (graphic_of ng) (with_pos z2 (pos z2 + p2))).
